@@ -196,11 +196,13 @@ def op_payload(pid, agg, n, model, why):
     d = describe(line, agg["types"])
     head = line.split(" | ")[0].split()
     tid = head[1] if len(head) > 1 else ""
-    vid = head[3] if len(head) > 3 else ""
-    return {"property": pid, "kind": why, "op": d, "type_decl": "T %s %s" % (tid, agg["types"].get(tid, {}).get("node", "")),
-            "value_decl": "V %s %s %s" % (vid, tid, agg["vals"].get(vid, "")), "model_outcome": model,
-            "replay_lines": ["T %s %s" % (tid, agg["types"].get(tid, {}).get("node", "")),
-                             "V %s %s %s" % (vid, tid, agg["vals"].get(vid, "")), line]}
+    # every token of the head that names a recorded value (ops carry one, two or more: D, CT, CY …)
+    vids = [t for t in head[2:] if t in agg["vals"]]
+    tline = "T %s %s" % (tid, agg["types"].get(tid, {}).get("node", ""))
+    vlines = ["V %s %s %s" % (v, tid, agg["vals"].get(v, "")) for v in vids]
+    return {"property": pid, "kind": why, "op": d, "type_decl": tline,
+            "value_decl": vlines[0] if vlines else "", "model_outcome": model,
+            "replay_lines": [tline] + vlines + [line]}
 
 
 def main():
